@@ -262,12 +262,14 @@ def table_needs(stmts: list[tuple]) -> tuple[int, int, int]:
 # ----------------------------------------------------------------------------- writer / reader drivers
 
 
-def make_options(k: K.Kit, *, logical: int | None = None, delimited: bool = True, frame_size: int = 250, preset: tuple = (8, 8, 8), namespaces: bool = False, generalized: bool = True, rdf_star: bool = True, flow: Any = None, version: int | None = None) -> Obj:
+def make_options(k: K.Kit, *, logical: int | None = None, delimited: bool = True, frame_size: int | None = 250, preset: tuple = (8, 8, 8), namespaces: bool = False, generalized: bool = True, rdf_star: bool = True, flow: Any = None, version: int | None = None) -> Obj:
     pkw: dict[str, Any] = dict(delimited=delimited, namespace_declarations=namespaces, generalized_statements=generalized, rdf_star=rdf_star)
     if version is not None:
         pkw["version"] = version  # what the caller asks for; the library decides what is declared
     params = k.params(**pkw)
-    kw: dict[str, Any] = dict(params=params, frame_size=frame_size, lookup_preset=k.preset(*preset))
+    kw: dict[str, Any] = dict(params=params, lookup_preset=k.preset(*preset))
+    if frame_size is not None:  # None: the library's own default (a tunable, see tunables.py)
+        kw["frame_size"] = frame_size
     if logical is not None:
         kw["logical_type"] = logical
     if flow is not None:
